@@ -142,6 +142,8 @@ fn expansion_cases(em: &mut Emit) {
 }
 
 pub fn run(em: &mut Emit, thorough: bool, seed: u64) {
+    // a host function that reads the iteration variable through its FunctionContext sees the current element
+    crate::s_c11::host_lookup_law(em);
     expansion_cases(em);
     let lists = all_lists(&[0, 1, 2, 3], if thorough { 6 } else { 4 });
     let mut progs: Vec<(String, bool)> = Vec::new();
